@@ -83,6 +83,22 @@ CHECKS = {
   "Every ordered list of <= 2 (thorough: 3) routes over path {/a,/a/b,/ab,/} x channel {bare, inbound wrapper, outbound, internal} x 13 match shapes is compiled by the real compiler and booted through startServers; every request over path (10) x method (3) x Host (8) x header X (6) x query (4) x remote address (5), complete along every dimension some matcher observes, is served; status, Allow set and route/target of the stored message must equal the reference (inbound routes only, first match in configuration order, criteria ANDed, segment-boundary prefix, POST by default, exact/*/sub-domain hosts, header and query values, remote prefixes; 404/405 leave the store empty).",
   "Five details the documentation leaves open (// collapsing, trailing-dot host, * without Host, comma lists in header values, IPv4-mapped peers) are measured once and applied consistently, never alarmed on; encoded slashes excluded.",
   "DESIGN.md §6 C10"),
+
+ "C05": ("bfs+sched+crash", "model_checking",
+  "explicit-state search over readiness histories with a nanosecond clock grid on both backends (qmodel + independent readiness monitor), exhaustive interleavings of consumers racing across a lease expiry, and crash-point enumeration while messages are leased",
+  "(1) Every store operation sequence up to the depth over enqueue (incl. future next_run_at), dequeue with every filter and batch sizes 1/2/3/100/101, nack with delay 0 and 5 s, extend, operator requeue/cancel and clock steps that land exactly on, 1 ns before and 10 ms-1 ns / 10 ms after every due instant, on memory and SQLite: nothing is offered before it is due, every dequeue returns exactly min(batch, ready) items, and everything due for at least the sweep granularity is ready. (2) Every interleaving within the preemption bound of two consumers on two routes racing across a lease expiry (the SQLite sweep-throttle compare-and-swap inside the transaction), linearizable against qmodel. (3) SIGKILL before every file-mutating syscall of lease-centred histories, restart through the production path, every unsettled message offered again exactly once after its lease expired.",
+  "SQLite's documented 10 ms sweep granularity is the allowed delay; monotonic clock; process death only; Postgres not executed.",
+  "DESIGN.md §6 C05"),
+ "C15": ("enum", "exploration",
+  "bounded-exhaustive enumeration of publish batches (every item kind alone, every ordered pair, core triples) x pre-states x policies x global/scoped paths x backends through the real Admin handler, against an independent acceptability reference with full row dumps before/after",
+  "Every single item kind, every ordered pair of all kinds (thorough: every ordered triple of the core kinds) of acceptable and unacceptable items (unknown/relative/managed/disabled routes, unresolvable targets, bad base64, payload/headers over the limits, invalid header names/values, bad timestamps, duplicate and already-queued ids, selector hints) is published on the global and the endpoint-scoped path under 8 queue pre-states (incl. near-full and full under reject and drop_oldest) and 14 request-level policies on memory and SQLite; acceptance => 200, published = n and every item stored in the shape of an ingress message; rejection => structured error, all rows and columns identical, item_index the lowest unacceptable index.",
+  "The multi-pass preflight order (item_index of the first failing pass instead of the lowest index) is a listed known finding (137 ordered kind pairs); batches of 4..999 items only through probes.",
+  "DESIGN.md §6 C15"),
+ "C17": ("enum", "exploration",
+  "bounded-exhaustive enumeration of secret-version window tuples x clock instants x selection modes x request shapes through the real HTTPDeliverer (signing config compiled from DSL) and the real ingress handler, against an independent HMAC/selection reference",
+  "Every ordered tuple of 1..3 secret versions over 9 validity windows (ties under every id assignment) x 20 clock instants (every bound and +/-1 ns, +/-1 s) x selection {default, newest_valid, oldest_valid} x loadable/unloadable values x request shapes (paths needing escaping, methods, bodies incl. NUL, custom header names) is signed by the real deliverer: the request seen by the transport carries timestamp = unix seconds and signature = HMAC-SHA256 over METHOD, escaped path, timestamp, body hash under the version the rule selects among versions valid at signing time (from inclusive, until exclusive); nothing is sent when no version is valid or the secret cannot be loaded. Inbound: a request signed with version v at timestamp t is accepted iff from(v) <= t < until(v), for every version x boundary instant.",
+  "Whole-second window bounds; tie direction by id is undocumented (either fixed end accepted); file:/vault: refs share the env: path.",
+  "DESIGN.md §6 C17"),
 }
 
 NOT_YET = "check not built yet (work in progress, see DESIGN.md §6)"
